@@ -11,7 +11,7 @@ Script operations (tuples):
     ("gc", T)                one garbage-collection pass with the clock at T0+T
     ("delete", sym)          storage.delete_event(id)
     ("get", sym)             storage.get_event(id)
-    ("http", sym)            GET /e/<id> through web.create_app(storage)
+    ("http", sym)            GET /e/<id> through web.create_app(storage); ("http", sym, "upper"): the id in upper-case hex
     ("query", [absfilter])   a REQ's stored answer through storage.subscribe(...)
     ("squery", [absfilter])  storage.run_single_query(filters)
 """
@@ -363,13 +363,13 @@ async def run_script(st, backend, uni, script, log_errors=None, keydump=None):
             lines.append({"a": "Delete", "id": op[1], "post": await dump_ids(st, backend, uni), "q": wq_abstract(st, uni), "bc": []})
         elif kind == "get":
             try:
-                ev = await st.get_event(uni.conc_value(op[1]))
+                ev = await st.get_event(_spell(uni.conc_value(op[1]), op))
             except Exception:
                 ev = None
-            lines.append({"a": "Get", "via": "store", "id": op[1], "found": bool(ev is not None), "got": _got(uni, ev)})
+            lines.append({"a": "Get", "via": "store", "id": op[1], "found": bool(ev is not None), "got": _got(uni, ev), "_spelling": op[2:]})
         elif kind == "http":
             # the same look-up through the web application: GET /e/<id> (falcon ASGI app built by web.create_app)
-            status, ctype, body = await http_get(st, "/e/" + uni.conc_value(op[1]))
+            status, ctype, body = await http_get(st, "/e/" + _spell(uni.conc_value(op[1]), op))
             ev = None
             if status == 200:
                 try:
@@ -379,7 +379,7 @@ async def run_script(st, backend, uni, script, log_errors=None, keydump=None):
                 except Exception:
                     ev = {"id": "?"}
             lines.append({"a": "Get", "via": "http", "id": op[1], "found": status == 200, "got": _got(uni, ev), "_status": status,
-                          "_ctype": ctype})
+                          "_ctype": ctype, "_spelling": op[2:]})
         elif kind in ("query", "squery", "rawquery"):
             fs = op[1]
             if kind == "rawquery":
@@ -413,6 +413,11 @@ async def run_script(st, backend, uni, script, log_errors=None, keydump=None):
     if keydump is not None and lines and "post" in lines[-1] and "_keys" not in lines[-1]:
         lines[-1]["_keys"] = await keydump(st)
     return lines
+
+
+def _spell(hexid, op):
+    """the id as the client spells it: a third item "upper" asks for upper-case hex digits (the same 32 bytes)"""
+    return hexid.upper() if len(op) > 2 and op[2] == "upper" and isinstance(hexid, str) else hexid
 
 
 def _got(uni, ev):
